@@ -66,9 +66,14 @@ func (s *Server) getGateKeeper(r *http.Request) sts.GateKeeper {
 		return gk
 	}
 	s.lock.RUnlock()
-	gk := s.GateKeeperFactory(source)
 	s.lock.Lock()
 	defer s.lock.Unlock()
+	if gk, ok := s.GateKeepers[source]; ok {
+		// Another request of this (new) source got here first; there must
+		// only ever be one gatekeeper per source
+		return gk
+	}
+	gk := s.GateKeeperFactory(source)
 	s.GateKeepers[source] = gk
 	return gk
 }
